@@ -74,13 +74,14 @@ def big_cycle_case(rng):
     """size threshold: one large, slowly converging SCC (contraction 0.9-0.95): thousands of agenda pops"""
     from fractions import Fraction as Fr
 
-    N = rng.randint(40, 70)
-    c = rng.choice([Fr(9, 10), Fr(15, 16), Fr(19, 20)])
-    rules = []
+    # one long cycle whose contraction (0.93-0.95) sits on a single edge: every trip around the cycle costs N agenda
+    # pops and shrinks the outstanding update by that factor only: 20-45 thousand pops (the default budget is 100000)
+    N = rng.randint(50, 80)
+    c = rng.choice([Fr(93, 100), Fr(15, 16), Fr(19, 20)])
+    rules = [[Fr(1, 20), "X0", ["a"]]]
     for i in range(N):
-        rules.append([c, f"X{i}", [f"X{(i + 1) % N}"] if rng.random() < 0.7 else ["a", f"X{(i + 1) % N}"]])
-        if i % 7 == 0:
-            rules.append([Fr(1, 16), f"X{i}", ["a"]])
+        w = c if i == N - 1 else Fr(1)
+        rules.append([w, f"X{i}", [f"X{(i + 1) % N}"] if rng.random() < 0.5 else ["a", f"X{(i + 1) % N}"]])
     rng.shuffle(rules)
     return {"g": {"S": "X0", "V": ["a"], "rules": rules}, "R": rng.choice(["Float", "Real", "Log"]), "big_cycle": N}
 
@@ -166,7 +167,7 @@ def run_case(case, ctx):
         good = cmp(t, g["S"])
         mech = "treesum/value" + ("/starved-block" if (not good and lib.is_zero_value(R, t)) else "")
         ctx.check("cfg.treesum()", good, mech, case, {"have": t, "want": wantv(g["S"])})
-    ok, B = ctx.call("cfg.naive_bottom_up()[X]", case, lambda: cfg.naive_bottom_up(timeout=3000))
+    ok, B = (False, None) if case.get("big_cycle") else ctx.call("cfg.naive_bottom_up()[X]", case, lambda: cfg.naive_bottom_up(timeout=3000))
     if ok:
         for X in Ns:
             ctx.check("cfg.naive_bottom_up()[X]", cmp(B[X], X), "naive_bottom_up/value", dict(case, X=X),
